@@ -444,7 +444,6 @@ package index
 //@   end
 
 //@ func New
-//@   ensures every_call_builds_a_new_index [C03,C05,C11]: err == nil ==> freshobj(result0)
 //@   ensures sorted_for_0x0400 [C05,C11]: codec == 1024 ==> err == nil && typeis(result0, "*v2/index.multiWidthIndex")
 //@   ensures mh_sorted_for_0x0401 [C05,C11]: codec == 1025 ==> err == nil && typeis(result0, "*v2/index.MultihashIndexSorted")
 //@   ensures other_codecs_rejected [C09,C11]: codec != 1024 && codec != 1025 ==> err != nil && result0 == nil
